@@ -33,6 +33,7 @@ with open(os.path.join(os.environ["C07_LOG_DIR"], "order.log"), "a") as fh:
 print("wrapped helper", helper_wrapped.twice(4))
 import builtins as _b                     # no builtin is hidden by a name the runner left in the program's global namespace
 print("builtins hidden by globals:", sorted(n for n in globals() if hasattr(_b, n) and not n.startswith("__")), "dir works:", callable(dir) and "X" in dir(helper_sibling))
+pattern = "\\d+ items"        # (not a raw string: the parser warns about the escape, once)
 print("program output line 1")
 print("program output line 2")
 '''
@@ -191,7 +192,16 @@ def compare(target, opts, pargs, r):
         rest = pb[len(pa):]
         if not rest or not rest[0].startswith('Wrote profile results to '):
             viol.append({'unexpected_after_program_output': rest[:3]})
-    if r['kp']['err'].strip():
+    def warn_lines(err):
+        # what the parser says about the program's own source (python says it too): compared, not forbidden
+        import re as _re
+        return sorted(_re.sub(r'^.*?([^/ ]+\.py:\d+: SyntaxWarning)', r'\1', l) for l in err.splitlines() if 'SyntaxWarning' in l)
+    kp_other = '\n'.join(l for i, l in enumerate(r['kp']['err'].splitlines())
+                         if 'SyntaxWarning' not in l and not (i and 'SyntaxWarning' in r['kp']['err'].splitlines()[i - 1]))
+    if warn_lines(r['kp']['err']) != warn_lines(r['py']['err']):
+        viol.append({'parser_warnings_differ': {'python': warn_lines(r['py']['err']), 'kernprof': warn_lines(r['kp']['err'])}})
+    if kp_other.strip():
+        r = dict(r, kp=dict(r['kp'], err=kp_other))
         if only_wrapped_warning(r['kp']['err']) and '-p' in opts:
             known.append({'stderr_wrapped_warning': r['kp']['err'][-300:]})
         else:
